@@ -146,3 +146,18 @@ pub async fn awaiting_handler(x: u32) -> u32 {
 async fn helper_async(x: u32) -> u32 {
     x
 }
+
+// ---------------------------------------------------------------- C18 taint controls
+pub fn comment_unsanitised(text: &str) -> String {
+    format!("# {}", text)
+}
+
+pub fn comment_sanitised_replace_ok(text: &str) -> String {
+    let one = text.replace(['\n', '\r'], " ");
+    format!("# {}", one)
+}
+
+pub fn comment_sanitised_filter_ok(text: &str) -> String {
+    let one: String = text.chars().filter(|c| *c != '\n' && *c != '\r').collect();
+    format!("# {}", one)
+}
